@@ -361,6 +361,49 @@ def r9(ctx, prog):
                    where=f.loc(c['i']))
 
 
+def r10(ctx, prog):
+    ctx.rule('C18.R10', 'A7 nothing about another routine survives a context switch: a pointer to a routine record taken from the cabinet before swapcontext() is not dereferenced '
+             'after it without being looked up again — the record of a routine that died in between has been freed (and its block may already belong to a new routine); what the '
+             'current routine needs after the switch is read through d_->curr_routine', floor=1)
+    n = 0
+    for f in prog.funcs.values():
+        if prog.outermost(f).cls != SCH or f.parent_usr:
+            continue
+        swaps = [c for c in f.calls() if c.get('callee') == 'swapcontext']
+        if not swaps:
+            continue
+        n += 1
+        bad = []
+        for st in f.stmts:
+            if st and st['k'] == 'DeclStmt':
+                for d in st['decls']:
+                    if 'Routine *' not in (d.get('ct') or d.get('t') or '') and not (d.get('t') or '').startswith('auto'):
+                        continue
+                    if 'init' not in d or not any(f.stmts[x]['k'] in q.CALL_KINDS and f.stmts[x].get('fn') in ('at', 'find', 'operator[]') for x in f.walk(d['init'])):
+                        continue
+                    if 'Routine' not in (d.get('ct') or ''):
+                        continue
+                    defs = [df for df in rd.local_defs(f, d['d']) if df['point'] is not None]
+                    for u in f.stmts:
+                        if not u or u['k'] != 'DeclRefExpr' or u.get('d') != d['d']:
+                            continue
+                        up = f.cfg.point_of(u['i'])
+                        par = f.s(f.parent.get(u['i']))
+                        while par is not None and par['k'] in ('ImplicitCastExpr', 'ParenExpr'):
+                            par = f.s(f.parent.get(par['i']))
+                        deref = par is not None and par['k'] == 'MemberExpr' and par.get('arrow', True)
+                        if up is None or not deref:
+                            continue
+                        for sw in swaps:
+                            if f.cfg.exists_path(q.pt(f, sw), up, avoid=[df['point'] for df in defs]):
+                                bad.append((d['n'], u, sw))
+        ctx.ob('C18.R10', '%s|no-stale-routine' % f.name, not bad, 'no routine pointer taken before a context switch is dereferenced after it' if not bad else
+               '%s, looked up before the switch, is dereferenced at %s after swapcontext() (%s): when the joiner runs again its target has died and its record was freed — the read sees '
+               'freed memory, or the state of whatever routine was created in that block since' % (bad[0][0], f.loc(bad[0][1]['i']), f.loc(bad[0][2]['i'])), where=f.loc(bad[0][1]['i']) if bad else f.loc(f.body))
+    if n < 1:
+        raise AnalysisBroken('no Scheduler method with a swapcontext() call found')
+
+
 def run(ctx):
     prog = extract('ALL' if ctx.tier == 'thorough' else ['coroutine/scheduler.cpp'], extra_units=[instantiate_unit()])
     ctx.guard(r1, ctx, prog)
@@ -372,4 +415,5 @@ def run(ctx):
     ctx.guard(r7, ctx, prog)
     ctx.guard(r8, ctx, prog)
     ctx.guard(r9, ctx, prog)
+    ctx.guard(r10, ctx, prog)
     return prog
